@@ -132,6 +132,11 @@ func vFile(name string, data []byte) string {
 	}
 	return p
 }
+// vDir returns a directory in which the code under test may create files.
+func vDir() string {
+	vFile(".keep", []byte{})
+	return vTmpDir
+}
 func vReadFile(path string) string {
 	b, err := os.ReadFile(path)
 	if err != nil {
@@ -344,6 +349,9 @@ func init() {
 				delete(ip.vfs, name)
 			}
 			return mkStr(name)
+		},
+		"vDir": func(ip *Interp, fn *ssa.Function, a []Value) Value {
+			return mkStr("/vfs")
 		},
 		"vReadFile": func(ip *Interp, fn *ssa.Function, a []Value) Value {
 			f, ok := ip.vfs[ip.nameArg(a[0])]
